@@ -5,6 +5,7 @@ import random
 from .. import exec_prog, gen_prog, layout, refval
 from ..refast import pp
 
+SHARED_OPTIONS = {}
 PATTERNS = [[1, 0, 1, 1, 0, 0, 1, 0], [0, 1, 0, 0, 1, 1, 0, 1], [1, 1, 1, 1], [0, 0, 0, 0]]
 
 
@@ -87,6 +88,16 @@ def run_case(prog, init, pattern, acc, con, lib, fuel=4000, limit=60000, respell
                 acc.violation('run-depends-on-option-shape:' + ','.join(bad), f'options {sorted(k for k in extra)} dropped/changed: {alt["status"]!r} {alt.get("result")!r:.200} vs {real["status"]!r} {real.get("result")!r:.200}\n{text}',
                               dict(case, option_shape=sorted(extra)))
                 break
+    if verdict == 'ok' and respell is None and len(text) % 4 == 1:
+        # history: ONE options object serves all runs of the process (a finite statement limit, the counter of the last run still in it)
+        lim = max(200, 3 * (real.get('count') or 0) + 50)
+        alt = exec_prog.run_real(text, init, pattern if pattern is None else list(pattern), limit=lim, debug=debug, reuse=SHARED_OPTIONS)
+        acc.count('reused_options_runs')
+        if alt['status'] != 'timeout':
+            bad = [k for k in ('status', 'result', 'logs', 'globals') if alt[k] != real[k]]
+            if bad:
+                acc.violation('run-depends-on-earlier-runs-with-the-same-options:' + ','.join(bad), '; '.join(f'{k}: reused={alt.get(k)!r:.300} fresh={real.get(k)!r:.300}' for k in bad) + f'\n{text}',
+                              dict(case, reused_options=True))
     if verdict == 'ok' and respell is None and len(text) % 5 == 2 and real['status'] in ('ok',) and split_ok(prog):
         # history: the function definitions run in ONE execute_script call, the rest of the program in a LATER call on the same globals
         # with its own options and log function - the functions defined earlier belong to the run that calls them
